@@ -53,6 +53,7 @@ META = {
         "second_interaction",
         "abort_generation_on_arrival",
         "delivery_during_search",
+        "chunk_spans_message_boundary",
         "interleaved_two_externals",
         "pipelined_message",
         "forecast_checked",
@@ -112,6 +113,7 @@ class Session:
         self.ended = False
         self.models: list = []  # model trees of the messages of sim_history (for cross-message constraints)
         self.last_hist = []
+        self.carry: dict = {}  # ext party -> tail of its last message, held back by the transport
 
 
 class ProtoSimulation:
@@ -469,9 +471,33 @@ class ProtoSimulation:
         party = self.io.parties.get(recipient)
         if party is None:
             return
-        self.run.event("deliver", sender, recipient, piece)
-        party.receive(piece, sender)  # the real FandangoParty.receive -> FandangoIO.add_receive
-        sess.delivered[sender] = sess.delivered.get(sender, 0) + len(piece)
+        held = sess.carry.pop(sender, None)
+        if held is not None:
+            # the transport coalesces: the held tail of the previous message and this piece arrive
+            # in one receive() call (a chunk that spans a message boundary)
+            self.run.probe("chunk_spans_message_boundary")
+            piece = held + piece
+        if last and held is None and rec["behaviour"] == "valid" and rec["valid"] and rec["ok"] and len(self.p.externals) == 1 and self.ch.coin(0.2, "sched", "hold-tail"):
+            # hold the last piece back for a moment; the peer goes on and may send its next message
+            # (single external party only: across independent senders a held tail would change the
+            # arrival order of their messages, which is a race the peers cannot resolve)
+            sess.carry[sender] = piece
+            self.run.event("hold", sender, piece)
+
+            def flush(sess=sess, sender=sender, recipient=recipient):
+                tail = sess.carry.pop(sender, None)
+                if tail is not None and sess is self.session and sess.active:
+                    p_ = self.io.parties.get(recipient)
+                    if p_ is not None:
+                        self.run.event("deliver", sender, recipient, tail)
+                        p_.receive(tail, sender)
+                        sess.delivered[sender] = sess.delivered.get(sender, 0) + len(tail)
+
+            self.clock.after(self.ch.pick([0.0005, 0.01, 0.05], "sched", "hold-for"), flush, "flush-held-tail")
+        else:
+            self.run.event("deliver", sender, recipient, piece)
+            party.receive(piece, sender)  # the real FandangoParty.receive -> FandangoIO.add_receive
+            sess.delivered[sender] = sess.delivered.get(sender, 0) + len(piece)
         if last:
             if sess.fault is not None and sess.fault_delivered_at is None and not (rec["valid"] and rec["ok"]):
                 sess.fault_delivered_at = self.clock.elapsed()
@@ -523,7 +549,7 @@ class ProtoSimulation:
                     # split it: what had arrived by then is a complete message of a shorter type
                     break
                 if rec["text"] != text or rec["type"] != t:
-                    run.violation("C20", "receive-conservation", "remote-message-differs", "message %d of %s in the tree is <%s> %r but the peer emitted <%s> %r\n%s" % (i, e, t, text, rec["type"], rec["text"], self.text))
+                    self.frag_violation("receive-conservation", "remote-message-differs", "message %d of %s in the tree is <%s> %r but the peer emitted <%s> %r\n%s" % (i, e, t, text, rec["type"], rec["text"], self.text))
                     break
                 if not (rec["valid"] and rec["ok"]):
                     run.violation("C20", "accepted-bad-remote-message", "accepted:" + rec["behaviour"], "the tree contains <%s> %r from %s, which the peer sent as a %s\nhistory=%s\n%s" % (t, text, e, rec["behaviour"], hist, self.text))
@@ -566,6 +592,13 @@ class ProtoSimulation:
         whose = ("F" if any(k[0] in self.p.fuzzers for k in want) else "") + ("E" if any(k[0] in self.p.externals for k in want) else "")
         pend = len(self.io.receive)
         run.state((hash(st) & 0xFFFFFF, whose, min(pend, 3), s.fault[0] if s.fault else None))
+
+    def frag_violation(self, cls, signature, detail):
+        """Oracles about *how remote data was cut* decide C20 and, end to end, C13 (fragmentation
+        independence of what the parser accepts)."""
+        self.run.violation("C20", cls, signature, detail)
+        if self.run.prop == "C13":
+            self.run.violation("C13", cls, "protocol-mode:" + signature, detail)
 
     def _cause(self, tree, extra, missing, got) -> str:
         """The most specific cause the harness can establish for a forecast discrepancy."""
@@ -648,7 +681,7 @@ class ProtoSimulation:
         ]
         for pat, key in REJECT:
             if any(pat in t for t in texts):
-                run.violation("C20", "valid-remote-data-rejected", "valid-remote-data-" + key, "all peers behaved validly (no fault, no race, delays <= 0.4 x thresholds) but Fandango rejected their data: %s\nlast tree=%s\nops:\n%s\n%s" % (texts, s.last_hist, "\n".join(run.ops[-30:]), self.text))
+                self.frag_violation("valid-remote-data-rejected", "valid-remote-data-" + key, "all peers behaved validly (no fault, no race, delays <= 0.4 x thresholds) but Fandango rejected their data: %s\nlast tree=%s\nops:\n%s\n%s" % (texts, s.last_hist, "\n".join(run.ops[-30:]), self.text))
                 return
         last = s.last_hist or []
         if raised is None:
@@ -661,7 +694,7 @@ class ProtoSimulation:
                 pending.append((e, em[n_tree]["text"]))
         timed_out = any("Timed out while waiting for message from remote party" in t for t in texts)
         if pending and timed_out:
-            run.violation("C20", "valid-remote-data-ignored", "valid-remote-data-ignored-until-timeout", "peers behaved validly; %s was fully delivered but never consumed and the run timed out waiting\nlast tree=%s\nops:\n%s\n%s" % (pending, last, "\n".join(run.ops[-30:]), self.text))
+            self.frag_violation("valid-remote-data-ignored", "valid-remote-data-ignored-until-timeout", "peers behaved validly; %s was fully delivered but never consumed and the run timed out waiting\nlast tree=%s\nops:\n%s\n%s" % (pending, last, "\n".join(run.ops[-30:]), self.text))
             return
         # anything else (navigator crashes, search giving up, ...) is outside what C20 states:
         # recorded as an observation, never deciding
